@@ -66,6 +66,8 @@ OTHERH == <<111, 46, 101, 120, 97, 109, 112, 108, 101>>         \* o.example
 HTTPS == <<104, 116, 116, 112, 115>>
 ScriptU(i) == CASE i = 1 -> <<SLASH>> [] i = 2 -> <<SLASH, 97, 112, 112>> [] OTHER -> <<SLASH, 97, 112, 112, SLASH>>
 \* [hm, ruledom, server, sub, scheme]
+Sd(dom, domnone, sub, subnone) == [hm |-> FALSE, dom |-> dom, server |-> EX, sub |-> sub, scheme |-> HTTP, dsub |-> WWW, domnone |-> domnone, subnone |-> subnone]
+BindX(i) == LET b == BindU(i) IN IF i >= 9 THEN b ELSE [hm |-> b.hm, dom |-> b.dom, server |-> b.server, sub |-> b.sub, scheme |-> b.scheme, dsub |-> <<>>, domnone |-> FALSE, subnone |-> FALSE]
 BindU(i) ==
   CASE i = 1 -> [hm |-> FALSE, dom |-> <<>>, server |-> EX, sub |-> <<>>, scheme |-> HTTP]
     [] i = 2 -> [hm |-> FALSE, dom |-> API, server |-> EX, sub |-> WWW, scheme |-> HTTP]
@@ -74,13 +76,20 @@ BindU(i) ==
     [] i = 5 -> [hm |-> TRUE, dom |-> EX, server |-> EX, sub |-> <<>>, scheme |-> HTTP]
     [] i = 6 -> [hm |-> TRUE, dom |-> OTHERH, server |-> EX, sub |-> <<>>, scheme |-> HTTPS]
     [] i = 7 -> [hm |-> FALSE, dom |-> API, server |-> EX, sub |-> <<>>, scheme |-> HTTP]
-    [] OTHER -> [hm |-> FALSE, dom |-> <<>>, server |-> EX, sub |-> <<97>>, scheme |-> HTTP]     \* 8: bound on subdomain "a"
+    [] i = 8 -> [hm |-> FALSE, dom |-> <<>>, server |-> EX, sub |-> <<97>>, scheme |-> HTTP]     \* 8: bound on subdomain "a"
+    \* 9..14: Map(default_subdomain="www"); rule subdomain None / "" / "api"; bind subdomain None / "" / "www" / "api"
+    [] i = 9  -> [Sd(<<>>, TRUE, <<>>, TRUE) EXCEPT !.scheme = HTTPS]
+    [] i = 10 -> Sd(<<>>, FALSE, <<>>, TRUE)
+    [] i = 11 -> Sd(<<>>, TRUE, <<>>, FALSE)
+    [] i = 12 -> Sd(<<>>, FALSE, <<>>, FALSE)
+    [] i = 13 -> Sd(API, FALSE, WWW, FALSE)
+    [] OTHER -> Sd(<<>>, TRUE, API, FALSE)
 
 Lit(t) == [k |-> "lit", t |-> t, pre |-> <<>>, name |-> <<>>, conv |-> ConvU(1), post |-> <<>>, more |-> <<>>]
 Var(pre, n, c, post) == [k |-> "var", t |-> <<>>, pre |-> pre, name |-> n, conv |-> c, post |-> post, more |-> <<>>]
 Var2(pre, n, c, post, n2, c2, post2) == [Var(pre, n, c, post) EXCEPT !.more = <<[name |-> n2, conv |-> c2, post |-> post2]>>]
-Rule(ep, segs, branch, defaults, dom) == [ep |-> ep, segs |-> segs, branch |-> branch, defaults |-> defaults, dom |-> dom, dsegs |-> <<>>]
-DynRule(ep, segs, branch, dseg) == [ep |-> ep, segs |-> segs, branch |-> branch, defaults |-> <<>>, dom |-> <<>>, dsegs |-> <<dseg>>]
+Rule(ep, segs, branch, defaults, dom) == [ep |-> ep, segs |-> segs, branch |-> branch, defaults |-> defaults, dom |-> dom, dsegs |-> <<>>, domnone |-> FALSE]
+DynRule(ep, segs, branch, dseg) == [ep |-> ep, segs |-> segs, branch |-> branch, defaults |-> <<>>, dom |-> <<>>, dsegs |-> <<dseg>>, domnone |-> FALSE]
 UN == <<117>>            \* "u"
 PN == <<112, 111, 114, 116>>   \* "port"
 DomVals == {Val("str", <<97>>), Val("str", <<97, 46, 98>>), Val("str", <<120, 45, 49>>)}      \* a | a.b | x-1
@@ -148,9 +157,11 @@ RulesFor(s, c, v0, dom) ==
 ShapeOKFor(s, c) == (s \in {7, 18, 19} => c.k # "path")
 BindOKFor(s, b) == (s \in {16, 17, 25} => BindU(b).hm) /\ (s \in {15, 24} => ~BindU(b).hm)
 
-MapOf == [rules |-> RulesFor(sh, ConvU(cv), val, BindU(bd).dom), host_matching |-> BindU(bd).hm, redirect_defaults |-> TRUE,
+RawRules == RulesFor(sh, ConvU(cv), val, BindU(bd).dom)
+MapOf == [rules |-> [i \in 1..Len(RawRules) |-> [RawRules[i] EXCEPT !.domnone = BindX(bd).domnone /\ RawRules[i].dsegs = <<>>]],
+          host_matching |-> BindU(bd).hm, redirect_defaults |-> TRUE, dsub |-> BindX(bd).dsub,
           sort |-> IF sh = 20 THEN 1 ELSE IF sh = 21 THEN 2 ELSE 0]
-BindOf == [server |-> BindU(bd).server, script |-> ScriptU(sc), sub |-> BindU(bd).sub, scheme |-> BindU(bd).scheme]
+BindOf == [server |-> BindU(bd).server, script |-> ScriptU(sc), sub |-> BindU(bd).sub, scheme |-> BindU(bd).scheme, subnone |-> BindX(bd).subnone]
 \* the call: endpoint 1 with x (not given in the defaults shapes half of the time: val2 = "none"), y for shape 7, an extra for shape 3
 ValsOf == IF sh = 22 THEN (IF val2.ty = "none" THEN <<>> ELSE <<Named(X, DfltP(ConvU(cv)))>>)
           ELSE IF sh = 23 THEN (IF val2.ty # "none" THEN <<Named(X, DfltP(ConvU(cv)))>> ELSE IF val.ty = "none" THEN <<>> ELSE <<Named(X, val)>>)
@@ -213,8 +224,8 @@ L3(m, b, Delivered, Dom) == \A p \in NearPaths(Delivered.path) :
         /\ CanonPath(m, Dom.dom, p) => d2.path = p
 
 Laws ==
-  LET m == MapOf
-      b == BindOf
+  LET m == NormMap(MapOf)
+      b == NormBind(MapOf, BindOf)
       vals == ValsOf
       Built == BuildUrl(m, b, 1, vals, ext)
       Delivered == Deliver(m, b, Built.url)
@@ -224,6 +235,6 @@ Laws ==
              ELSE IF ~L2(m, b, Built, Matches) THEN "Law2" ELSE IF ~L3(m, b, Delivered, Dom) THEN "Law3" ELSE "ok"
   IN IF ph = 0 \/ bad = "ok" \/ Candidates(m.rules, 1, vals) = {} \/ (\E i \in Candidates(m.rules, 1, vals) : ~InDomain(m.rules[i], vals)) THEN TRUE ELSE PrintT(<<bad, Built.url, Delivered, Matches>>) /\ FALSE
 
-ExportCase == LET m == MapOf b == BindOf IN
-  ph = 0 \/ Candidates(m.rules, 1, ValsOf) = {} \/ (\E i \in Candidates(m.rules, 1, ValsOf) : ~InDomain(m.rules[i], ValsOf)) \/ PrintT(ToJson([map |-> m, bind |-> b, ep |-> 1, vals |-> ValsOf, ext |-> ext, url |-> BuildUrl(m, b, 1, ValsOf, ext).url]))
+ExportCase == LET m == MapOf b == BindOf IN    \* exported unresolved: the real Map / bind resolve None themselves
+  ph = 0 \/ Candidates(m.rules, 1, ValsOf) = {} \/ (\E i \in Candidates(m.rules, 1, ValsOf) : ~InDomain(m.rules[i], ValsOf)) \/ PrintT(ToJson([map |-> m, bind |-> b, ep |-> 1, vals |-> ValsOf, ext |-> ext, url |-> BuildUrl(NormMap(m), NormBind(m, b), 1, ValsOf, ext).url]))
 =============================================================================
